@@ -1093,6 +1093,21 @@ pub fn accrue(vm: &mut Vm, bank: &VenueBank, factor_ppm: u64) {
     });
 }
 
+/// Loss knob (the outside world acting): the venue writes off `factor_ppm` millionths of what its borrowers owe
+/// (`borrowed_amount_sf *= 1 - factor_ppm / 1e6`, floor, never below the fee fields' sum), so each collateral unit is
+/// worth LESS underlying; enough of it puts the reserve below par (liquidity < collateral supply). Freshness untouched.
+pub fn loss(vm: &mut Vm, bank: &VenueBank, factor_ppm: u64) {
+    let factor_ppm = factor_ppm.min(1_000_000);
+    vm.modify(&bank.reserve, |a| {
+        let rd = |o: usize| u128::from_le_bytes(a.data[o..o + 16].try_into().unwrap());
+        let b = rd(R_BORROWED_SF);
+        let fees = rd(R_PROT_FEES_SF).saturating_add(rd(R_REF_FEES_SF)).saturating_add(rd(R_PENDING_REF_FEES_SF));
+        let nb = (BigUint::from(b) * BigUint::from(1_000_000u64 - factor_ppm)) / BigUint::from(1_000_000u64);
+        let nb = nb.to_u128().unwrap_or(u128::MAX).max(fees.min(b));
+        a.data[R_BORROWED_SF..R_BORROWED_SF + 16].copy_from_slice(&nb.to_le_bytes());
+    });
+}
+
 /// Exact underlying-per-collateral-unit exchange rate (native liquidity units per native collateral unit) as
 /// (numerator, denominator), from the raw reserve bytes:
 /// `(available * 2^60 + borrowed_sf - protocol_fees_sf - referrer_fees_sf - pending_referrer_fees_sf) / (collateral_supply * 2^60)`.
